@@ -160,6 +160,27 @@ def wrap_lp(fragment, lp):
     return tlvref.make_lp(None if lp.get('nofrag') else fragment, headers)
 
 
+def reframe_for_stream(wire):
+    """Byte strings whose outer Type/Length do not frame them exactly cannot be *delivered* by a stream
+    transport (they would just shift the framing of everything behind them): keep the bytes but give
+    them a consistent outer Length."""
+    if not wire:
+        return wire
+    pkts, rest = tlvref.frame_stream(wire)
+    if pkts and not rest:
+        return wire
+    try:
+        typ, n1 = tlvref.dec_var(wire, 0, strict=False)
+    except tlvref.TlvError:
+        return tlvref.tlv(wire[0] if wire[0] <= 0xfc else 6, wire[1:])
+    try:
+        _ln, n2 = tlvref.dec_var(wire, n1, strict=False)
+        body = wire[n1 + n2:]
+    except tlvref.TlvError:
+        body = wire[n1:]
+    return tlvref.tlv(typ, body)
+
+
 def apply_mutation(wire, m):
     """One mutation of a wire: {'t':'flip','off':i,'x':mask} | {'t':'trunc','n':len} |
     {'t':'outerlen','d':delta} | {'t':'ins','off':i,'hex':..} | {'t':'del','off':i,'n':k}"""
@@ -468,20 +489,29 @@ class PipeWorld(World):
             wire = self.mat.inner(ref['pid'])
         else:
             wire = self.mat.outer_of(ref)
-        idx = self.rx_count
-        self.rx_count += 1
-        self.tok(f'R{idx}')
-        ev = self.log('rx', idx=idx, wire=wire, delivered=False, t_last=self.now_us(),
-                      ref=ref if not isinstance(ref, dict) else ref.get('pid'))
-        self._deliver(wire, op, ev)
+        if self.face_kind in ('tcp', 'unix'):
+            wire = reframe_for_stream(wire)     # a stream transport only ever hands over framed elements
+        refid = ref if not isinstance(ref, dict) else ref.get('pid')
+        if self.face_kind in ('tcp', 'unix') and wire:
+            # the stream face hands over one element at a time: one history entry per framed element
+            parts = [w for _t, w in tlvref.frame_stream(wire)[0]]
+        else:
+            parts = [wire]
+        evs = []
+        for part in parts:
+            idx = self.rx_count
+            self.rx_count += 1
+            self.tok(f'R{idx}')
+            evs.append(self.log('rx', idx=idx, wire=part, delivered=False, t_last=self.now_us(), ref=refid))
+        self._deliver(wire, op, evs)
 
-    def _deliver(self, wire, op, ev):
+    def _deliver(self, wire, op, evs):
         kind = self.face_kind
         if kind == 'direct':
-            ev['delivered'] = self.face.deliver(wire)
+            evs[0]['delivered'] = self.face.deliver(wire)
             return
         if kind == 'udp':
-            ev['delivered'] = self.peer.deliver(wire)
+            evs[0]['delivered'] = self.peer.deliver(wire)
             return
         cuts = sorted(set(c % (len(wire) + 1) for c in op.get('cuts', []))) if wire else []
         gap = op.get('gap_us', 0)
@@ -500,19 +530,19 @@ class PipeWorld(World):
         for i, piece in enumerate(pieces):
             if i > 0:
                 t_sched += gap
-            self._stream_q.append((t_sched, piece, ev if i == len(pieces) - 1 else None))
+            self._stream_q.append((t_sched, piece, evs if i == len(pieces) - 1 else None))
             if t_sched > now:
-                self.at(t_sched, self._pump)
+                self.at(t_sched, self._pump, t_sched)
         self._stream_busy_until = t_sched
         self._pump()
 
-    def _pump(self):
-        now = self.now_us()
+    def _pump(self, due=0):
+        now = max(self.now_us(), due)       # a timer may fire up to one clock resolution early
         q = self._stream_q
         while q and q[0][0] <= now:
-            _t, piece, ev = q.pop(0)
+            _t, piece, evs = q.pop(0)
             ok = self.peer.feed(piece)
-            if ev is not None:
+            for ev in evs or ():
                 ev['delivered'] = bool(ok)
                 ev['t_last'] = now
 
@@ -660,6 +690,8 @@ class PipeWorld(World):
                 i = j
             self.at(self.horizon_us(), self._finish)
             limit = self.run()
+            if getattr(self, 'harness_failure', None):
+                raise HarnessError(self.harness_failure)
             self._post_run(limit)
             from engines import pipeline_model
             pipeline_model.judge(self)
@@ -669,7 +701,12 @@ class PipeWorld(World):
 
     def _run_ops(self, batch):
         for fn, op in batch:
-            fn(op)
+            try:
+                fn(op)
+            except Exception as e:      # a failing scripted op is the harness's fault, never a violation
+                self.harness_failure = f'op {op.get("op")} at {op.get("at")}: {type(e).__name__}: {e}'
+                self.loop.stop()
+                return
 
     def _start(self):
         self.main_task = self.spawn(self.app.main_loop())
